@@ -369,7 +369,11 @@ class Engine:
                 g = ens(ctx, old, args, outcome)
                 if g is None:
                     continue
-                ctx.oblige(f"{label}/ensures/{name}", g, {"outcome": outcome[0]})
+                info = {"outcome": outcome[0]}
+                if isinstance(g, tuple):
+                    g, wit = g
+                    info["witness"] = wit
+                ctx.oblige(f"{label}/ensures/{name}", g, info)
 
         before = len(self.obligations)
         npaths = self.explore(label, run)
@@ -487,6 +491,8 @@ class Engine:
                 outcome = ("raise", exc)
             for name, ens in c.ensures:
                 g = ens(ctx, old, args, outcome)
+                if isinstance(g, tuple):
+                    g = g[0]
                 if g is not None:
                     ctx.assume(g)
             if not ctx.feasible():
